@@ -23,3 +23,76 @@ mod __verif_date {
         assert!(r == expect as f64);
     }
 }
+
+// appended to src/helper/date.rs of a scratch copy under #[cfg(kani)]
+#[cfg(kani)]
+mod __verif_date_back {
+    use super::*;
+    use chrono::{Datelike, NaiveDate, Timelike};
+    // NaiveDateTime::parse_from_str is a format-string interpreter (intractable for CBMC). The real function calls it with
+    // the fixed format "%Y-%m-%d %T" on literals of the shape "YYYY-MM-DD hh:mm:ss"; the stub reads exactly that shape
+    // digit by digit (so a changed literal is seen) and rejects everything else.
+    fn stub_parse(s: &str, fmt: &str) -> chrono::ParseResult<NaiveDateTime> {
+        let b = s.as_bytes();
+        let f = fmt.as_bytes();
+        let fmt_ok = f.len() == 11 && f[0] == b'%' && f[1] == b'Y' && f[2] == b'-' && f[3] == b'%' && f[4] == b'm' && f[5] == b'-'
+            && f[6] == b'%' && f[7] == b'd' && f[8] == b' ' && f[9] == b'%' && f[10] == b'T';
+        assert!(fmt_ok && b.len() == 19 && b[4] == b'-' && b[7] == b'-' && b[10] == b' ' && b[13] == b':' && b[16] == b':');
+        let dg = |i: usize| -> u32 { assert!(b[i] >= b'0' && b[i] <= b'9'); (b[i] - b'0') as u32 };
+        let y = (dg(0) * 1000 + dg(1) * 100 + dg(2) * 10 + dg(3)) as i32;
+        let (mo, d) = (dg(5) * 10 + dg(6), dg(8) * 10 + dg(9));
+        let (h, mi, se) = (dg(11) * 10 + dg(12), dg(14) * 10 + dg(15), dg(17) * 10 + dg(18));
+        Ok(NaiveDate::from_ymd_opt(y, mo, d).unwrap().and_hms_opt(h, mi, se).unwrap())
+    }
+    // the real excel_to_date_time_object on EVERY whole-day serial from 1900-03-01 (61) to 9999-12-31 (2958465)
+    // against an independently written civil-from-days (Hinnant's algorithm): the calendar date the serial denotes, 00:00:00.
+    // The domain is split into consecutive ranges (one harness each) because one SAT query over the whole domain does
+    // not finish in budget; together the ranges cover 61..=2958465 without a gap (checked by tools/run_kani.py: ranges
+    // are listed in kani/INDEX.json and must tile the domain).
+    fn serial_range(lo: u32, hi: u32) {
+        let n: u32 = kani::any();
+        kani::assume(n >= lo && n <= hi);
+        let r = excel_to_date_time_object(&(n as f64), None);
+        let z = n as i64 - 25569 + 719468;
+        let era = z / 146097;
+        let doe = z - era * 146097;
+        let yoe = (doe - doe / 1460 + doe / 36524 - doe / 146096) / 365;
+        let y0 = yoe + era * 400;
+        let doy = doe - (365 * yoe + yoe / 4 - yoe / 100);
+        let mp = (5 * doy + 2) / 153;
+        let d = doy - (153 * mp + 2) / 5 + 1;
+        let m = if mp < 10 { mp + 3 } else { mp - 9 };
+        let y = if m <= 2 { y0 + 1 } else { y0 };
+        assert!(r.year() as i64 == y && r.month() as i64 == m && r.day() as i64 == d);
+        assert!(r.hour() == 0 && r.minute() == 0 && r.second() == 0);
+    }
+    #[kani::proof]
+    #[kani::stub(chrono::NaiveDateTime::parse_from_str, stub_parse)]
+    fn k_serial_to_date_a() { serial_range(61, 80000); }
+    #[kani::proof]
+    #[kani::stub(chrono::NaiveDateTime::parse_from_str, stub_parse)]
+    fn k_serial_to_date_b() { serial_range(80001, 700000); }
+    #[kani::proof]
+    #[kani::stub(chrono::NaiveDateTime::parse_from_str, stub_parse)]
+    fn k_serial_to_date_c() { serial_range(700001, 1260000); }
+    #[kani::proof]
+    #[kani::stub(chrono::NaiveDateTime::parse_from_str, stub_parse)]
+    fn k_serial_to_date_d() { serial_range(1260001, 1820000); }
+    #[kani::proof]
+    #[kani::stub(chrono::NaiveDateTime::parse_from_str, stub_parse)]
+    fn k_serial_to_date_e() { serial_range(1820001, 2380000); }
+    #[kani::proof]
+    #[kani::stub(chrono::NaiveDateTime::parse_from_str, stub_parse)]
+    fn k_serial_to_date_f() { serial_range(2380001, 2958465); }
+    // serials 1..=59 (1900-01-01 .. 1900-02-28, before the phantom leap day): the date is 1899-12-31 + n days
+    #[kani::proof]
+    #[kani::stub(chrono::NaiveDateTime::parse_from_str, stub_parse)]
+    fn k_serial_to_date_0() {
+        let n: u32 = kani::any();
+        kani::assume(n >= 1 && n <= 59);
+        let r = excel_to_date_time_object(&(n as f64), None);
+        let (m, d) = if n <= 31 { (1, n) } else { (2, n - 31) };
+        assert!(r.year() == 1900 && r.month() == m && r.day() == d);
+        assert!(r.hour() == 0 && r.minute() == 0 && r.second() == 0);
+    }
+}
